@@ -212,6 +212,11 @@ func DischargeAll(obls []*Obligation, workDir string, timeoutS, seed, parallel i
 		}
 		Discharge(u, filepath.Join(workDir, fmt.Sprintf("retry%d", round)), timeoutS*3, seed+round*7919, 5)
 	}
+	// last resort, for a machine that is busy with other work: a handful of
+	// leftovers get a long, nearly sequential run before they are reported
+	if u := undecided(); len(u) > 0 && len(u) <= 8 {
+		Discharge(u, filepath.Join(workDir, "retry-long"), timeoutS*12, seed+3*7919, 3)
+	}
 }
 
 
